@@ -1,7 +1,8 @@
 /-
   C11  Name and value case rules follow the document type.
 
-  Model : `Ctx.tagName` (`get_tag`), `matchTagname`, `matchAttributeName`, `Ctx.attrByName`
+  Model : `Ctx.tagName` (`get_tag`), `matchTagname`, `matchAttributeValues` (and its head
+          `matchAttributeName`), `Ctx.attrByName`
           (`get_attribute_by_name`), `matchAttributes`, `matchList` (Model/Match.lean);
           `Rx.runs`/`Rx.isMatch` (Model/Regex.lean); `mkCtx` (Model/Api.lean).
 
@@ -79,31 +80,43 @@ theorem xml_tag_case_sensitive_witness :
 
 /-! ### Attribute names -/
 
-/-- HTML: `match_attribute_name` sees the selector's attribute name only through `lower`. -/
+/-- HTML: `match_attribute_name` sees the selector's attribute name only through `lower`
+    (every yielded value). -/
+theorem html_attr_values_lower (c : Ctx) (e : Elem) (a p : Str) (hx : c.isXml = false) :
+    matchAttributeValues c e a p = matchAttributeValues c e (lower a) p := by
+  simp [matchAttributeValues, hx, Names.lower_idem]
+
+/-- The first yielded value (the former return value). -/
 theorem html_attr_name_lower (c : Ctx) (e : Elem) (a p : Str) (hx : c.isXml = false) :
     matchAttributeName c e a p = matchAttributeName c e (lower a) p := by
-  simp [matchAttributeName, hx, Names.lower_idem]
+  rw [matchAttributeName_eq_head?, matchAttributeName_eq_head?, html_attr_values_lower c e a p hx]
 
 /-- HTML: attribute names in a selector match regardless of ASCII case — in all four branches
     (no namespace support; empty prefix; `*`; mapped prefix) at once. -/
+theorem html_attr_values_fold (c : Ctx) (e : Elem) (a a' p : Str)
+    (hx : c.isXml = false) (h : caseEq a a') :
+    matchAttributeValues c e a p = matchAttributeValues c e a' p := by
+  have h' : lower a = lower a' := h
+  rw [html_attr_values_lower c e a p hx, html_attr_values_lower c e a' p hx, h']
+
 theorem html_attr_name_fold (c : Ctx) (e : Elem) (a a' p : Str)
     (hx : c.isXml = false) (h : caseEq a a') :
     matchAttributeName c e a p = matchAttributeName c e a' p := by
-  have h' : lower a = lower a' := h
-  rw [html_attr_name_lower c e a p hx, html_attr_name_lower c e a' p hx, h']
+  rw [matchAttributeName_eq_head?, matchAttributeName_eq_head?, html_attr_values_fold c e a a' p hx h]
 
 /-- HTML: the document side is folded too — the key text and the local name of each attribute
     can change ASCII case without changing the result. -/
-theorem html_attr_name_fold_doc (c : Ctx) (e : Elem) (as bs : List Attr) (a p : Str)
+theorem html_attr_values_fold_doc (c : Ctx) (e : Elem) (as bs : List Attr) (a p : Str)
     (hx : c.isXml = false)
     (hrel : Pairwise₂ (fun x y => caseEq x.key y.key ∧ x.kns = y.kns ∧
       x.kname.map lower = y.kname.map lower ∧ x.val = y.val) as bs) :
-    matchAttributeName c { e with attrs := as } a p = matchAttributeName c { e with attrs := bs } a p := by
+    matchAttributeValues c { e with attrs := as } a p =
+      matchAttributeValues c { e with attrs := bs } a p := by
   have key : ∀ (P Q : Attr → Bool), (∀ x y, (caseEq x.key y.key ∧ x.kns = y.kns ∧
       x.kname.map lower = y.kname.map lower ∧ x.val = y.val) → P x = Q y) →
-      (as.find? P).map valOf = (bs.find? Q).map valOf := by
+      (as.filter P).map valOf = (bs.filter Q).map valOf := by
     intro P Q hPQ
-    refine find?_map_pairwise₂ hPQ ?_ hrel
+    refine filter_map_pairwise₂ hPQ ?_ hrel
     rintro x y ⟨_, _, _, h4⟩; simp [valOf, h4]
   have hloc : ∀ x y : Attr, x.kname.map lower = y.kname.map lower →
       localNameEq c a x = localNameEq c a y := by
@@ -113,7 +126,7 @@ theorem html_attr_name_fold_doc (c : Ctx) (e : Elem) (as bs : List Attr) (a p : 
     simp [nameEq, hx, h]
   cases hsn : c.supportsNamespaces with
   | false =>
-    rw [man_no_ns hsn, man_no_ns hsn]
+    rw [mav_no_ns hsn, mav_no_ns hsn]
     refine key _ _ ?_
     rintro x y ⟨h1, _, _, _⟩
     have h1' : lower x.key = lower y.key := h1
@@ -121,25 +134,33 @@ theorem html_attr_name_fold_doc (c : Ctx) (e : Elem) (as bs : List Attr) (a p : 
   | true =>
     by_cases hp : p = []
     · subst hp
-      rw [man_bare hsn, man_bare hsn]
+      rw [mav_bare hsn, mav_bare hsn]
       refine key _ _ ?_
       rintro x y ⟨h1, _, _, _⟩
       have h1' : lower x.key = lower y.key := h1
       simp [nameEq, hx, h1']
     · by_cases hs : p = "*".toStr
       · subst hs
-        rw [man_star hsn, man_star hsn]
+        rw [mav_star hsn, mav_star hsn]
         refine key _ _ ?_
         rintro x y ⟨h1, h2, h3, _⟩
         have h1' : lower x.key = lower y.key := h1
         simp [nameEq, hx, h1', h2, hloc x y h3]
       · cases hm : c.nsGet p with
-        | none => rw [man_unmapped hsn _ a p hp hs hm, man_unmapped hsn _ a p hp hs hm]
+        | none => rw [mav_unmapped hsn _ a p hp hs hm, mav_unmapped hsn _ a p hp hs hm]
         | some u =>
-          rw [man_ns hsn _ a p u hp hs hm, man_ns hsn _ a p u hp hs hm]
+          rw [mav_ns hsn _ a p u hp hs hm, mav_ns hsn _ a p u hp hs hm]
           refine key _ _ ?_
           rintro x y ⟨_, h2, h3, _⟩
           simp [h2, hloc x y h3]
+
+theorem html_attr_name_fold_doc (c : Ctx) (e : Elem) (as bs : List Attr) (a p : Str)
+    (hx : c.isXml = false)
+    (hrel : Pairwise₂ (fun x y => caseEq x.key y.key ∧ x.kns = y.kns ∧
+      x.kname.map lower = y.kname.map lower ∧ x.val = y.val) as bs) :
+    matchAttributeName c { e with attrs := as } a p = matchAttributeName c { e with attrs := bs } a p := by
+  rw [matchAttributeName_eq_head?, matchAttributeName_eq_head?,
+    html_attr_values_fold_doc c e as bs a p hx hrel]
 
 theorem str_beq_comm (a b : Str) : (a == b) = (b == a) := by
   by_cases h : a = b
@@ -147,40 +168,58 @@ theorem str_beq_comm (a b : Str) : (a == b) = (b == a) := by
   · have h' : b ≠ a := fun h' => h h'.symm
     rw [beq_eq_false_iff_ne.mpr h, beq_eq_false_iff_ne.mpr h']
 
+/-- `matchAttributeName` from a `filter` characterisation of `matchAttributeValues`. -/
+theorem name_of_values {c : Ctx} {e : Elem} {a p : Str} {P : Attr → Bool}
+    (h : matchAttributeValues c e a p = (e.attrs.filter P).map (fun x => normalizeValue x.val)) :
+    matchAttributeName c e a p = (e.attrs.find? P).map (fun x => normalizeValue x.val) := by
+  rw [matchAttributeName_eq_head?, h, List.head?_map, List.head?_filter]
+
 /-- XML, namespace branch (`[ns|a]`, `ns ↦ u`): URI and local name are compared with `=`. -/
-theorem xml_attr_name_exact (c : Ctx) (e : Elem) (a p u : Str) (hx : c.isXml = true)
+theorem xml_attr_values_exact (c : Ctx) (e : Elem) (a p u : Str) (hx : c.isXml = true)
     (hp : p ≠ []) (hs : p ≠ "*".toStr) (hm : c.nsGet p = some u) :
-    matchAttributeName c e a p =
-      (e.attrs.find? (fun x => x.kns == some u && x.kname == some a)).map
+    matchAttributeValues c e a p =
+      (e.attrs.filter (fun x => x.kns == some u && x.kname == some a)).map
         (fun x => normalizeValue x.val) := by
-  rw [man_ns (supportsNamespaces_of_xml hx) e a p u hp hs hm]
+  rw [mav_ns (supportsNamespaces_of_xml hx) e a p u hp hs hm]
   congr 1
-  apply find?_congr
+  apply List.filter_congr
   intro x _
   unfold localNameEq
   cases x.kname with
   | none => simp
   | some nm => simp [nameEq_xml hx, str_beq_comm a nm]
 
+theorem xml_attr_name_exact (c : Ctx) (e : Elem) (a p u : Str) (hx : c.isXml = true)
+    (hp : p ≠ []) (hs : p ≠ "*".toStr) (hm : c.nsGet p = some u) :
+    matchAttributeName c e a p =
+      (e.attrs.find? (fun x => x.kns == some u && x.kname == some a)).map
+        (fun x => normalizeValue x.val) :=
+  name_of_values (xml_attr_values_exact c e a p u hx hp hs hm)
+
 /-- XML, `[a]`: the whole key is compared with `=`. -/
-theorem xml_attr_bare_exact (c : Ctx) (e : Elem) (a : Str) (hx : c.isXml = true) :
-    matchAttributeName c e a [] =
-      (e.attrs.find? (fun x => x.key == a)).map (fun x => normalizeValue x.val) := by
-  rw [man_bare (supportsNamespaces_of_xml hx) e a]
+theorem xml_attr_values_bare_exact (c : Ctx) (e : Elem) (a : Str) (hx : c.isXml = true) :
+    matchAttributeValues c e a [] =
+      (e.attrs.filter (fun x => x.key == a)).map (fun x => normalizeValue x.val) := by
+  rw [mav_bare (supportsNamespaces_of_xml hx) e a]
   congr 1
-  apply find?_congr
+  apply List.filter_congr
   intro x _
   rw [nameEq_xml hx]
   exact str_beq_comm a x.key
 
+theorem xml_attr_bare_exact (c : Ctx) (e : Elem) (a : Str) (hx : c.isXml = true) :
+    matchAttributeName c e a [] =
+      (e.attrs.find? (fun x => x.key == a)).map (fun x => normalizeValue x.val) :=
+  name_of_values (xml_attr_values_bare_exact c e a hx)
+
 /-- XML, `[*|a]`: `=` on the key (no namespace) or on the local name (any namespace). -/
-theorem xml_attr_any_exact (c : Ctx) (e : Elem) (a : Str) (hx : c.isXml = true) :
-    matchAttributeName c e a "*".toStr =
-      (e.attrs.find? (fun x => (x.kns.isNone && x.key == a) ||
+theorem xml_attr_values_any_exact (c : Ctx) (e : Elem) (a : Str) (hx : c.isXml = true) :
+    matchAttributeValues c e a "*".toStr =
+      (e.attrs.filter (fun x => (x.kns.isNone && x.key == a) ||
         (x.kns.isSome && x.kname == some a))).map (fun x => normalizeValue x.val) := by
-  rw [man_star (supportsNamespaces_of_xml hx) e a]
+  rw [mav_star (supportsNamespaces_of_xml hx) e a]
   congr 1
-  apply find?_congr
+  apply List.filter_congr
   intro x _
   unfold localNameEq
   rw [nameEq_xml hx]
@@ -188,6 +227,12 @@ theorem xml_attr_any_exact (c : Ctx) (e : Elem) (a : Str) (hx : c.isXml = true) 
   cases x.kname with
   | none => simp
   | some nm => simp [nameEq_xml hx, str_beq_comm a nm]
+
+theorem xml_attr_any_exact (c : Ctx) (e : Elem) (a : Str) (hx : c.isXml = true) :
+    matchAttributeName c e a "*".toStr =
+      (e.attrs.find? (fun x => (x.kns.isNone && x.key == a) ||
+        (x.kns.isSome && x.kname == some a))).map (fun x => normalizeValue x.val) :=
+  name_of_values (xml_attr_values_any_exact c e a hx)
 
 /-! ### `get_attribute_by_name` (used for `id`, `class`, `type`, `dir`, `name`, ...) -/
 
@@ -221,13 +266,12 @@ theorem matchId_value_exact (c : Ctx) (e : Elem) (i : Str) :
 
 /-! ### Attribute values: which pattern is used -/
 
-/-- `match_attributes` on one attribute selector: `xml_type_pattern` is used exactly when the
-    document is XML and the selector has one (it has one only for `[type...]` without a flag). -/
+/-- `match_attributes` on one attribute selector: SOME value yielded by `match_attribute_name`
+    matches the pattern; `xml_type_pattern` is used exactly when the document is XML and the
+    selector has one (it has one only for `[type...]` without a flag). -/
 theorem xml_type_pattern_choice (c : Ctx) (e : Elem) (a : AttrSel) :
     matchAttributes c e [a] =
-      match matchAttributeName c e a.attrName a.pfx with
-      | none => false
-      | some v =>
+      (matchAttributeValues c e a.attrName a.pfx).any fun v =>
         match (if c.isXml && a.xmlTypePattern.isSome then a.xmlTypePattern else a.pattern) with
         | none => true
         | some r => Rx.isMatch c.env r (nvalJoin v) := by
